@@ -1,6 +1,7 @@
 (** C09 — Parallel writers do not interfere.
     Property theorems only; each is closed by [exact] of a lemma proved in Proofs/. *)
 Require Import Sedpack.Model.Base Sedpack.Model.Effects Sedpack.Proofs.EffectsProofs.
+Require Sedpack.Model.Filler Sedpack.Model.Meta Sedpack.Proofs.NoDupProofs Sedpack.Proofs.CheckProofs.
 
 (** Let every worker process perform its own list of file-system effects (mkdir with exist_ok,
     files coming to hold some content, removals).  If the workers are pairwise independent — no
@@ -18,6 +19,17 @@ Proof. exact interleaving_irrelevant_lemma. Qed.
 Print Assumptions c09_interleaving_irrelevant.
 
 (** Non-vacuity: two writers in their own directories plus the shared mkdir of the split. *)
+(** The multi-writer call in the session model of C04 (its writers run one after another in argument order, each into its own fresh
+    directory): after any history ending with such a call — any number of writers, uneven loads, several splits per writer,
+    writers that write nothing — the metadata is exact (every summary, no shard listed twice, none unlisted) and the integrity
+    check passes.  (That the real, concurrently running workers produce what the sequential model produces is the subject of the
+    theorem above together with the measured independence of the workers.) *)
+Theorem c09_multi_writer_result_is_exact_and_checked :
+  forall eps : nat, 1 <= eps -> forall (h : list Meta.session) (writers : list (list Filler.wop)) (fs : Meta.fsT) (info : Meta.dinfo),
+    Meta.run_history eps (h ++ [Meta.SMulti writers]) = Meta.Ok (fs, info) -> Meta.exact_all fs info = true /\ Meta.check fs info = true.
+Proof. exact CheckProofs.multi_writer_exact_checked. Qed.
+Print Assumptions c09_multi_writer_result_is_exact_and_checked.
+
 Theorem c09_nonvacuous :
   let w1 := [EMkdir [0]; EMkdir [0; 7]; EWrite [0; 7; 1] 11; EWrite [0; 7; 99] 12] in
   let w2 := [EMkdir [0]; EMkdir [0; 8]; EWrite [0; 8; 1] 21] in
